@@ -43,7 +43,7 @@ CHECKS["C06"] = dict(
          "concatenated stream; hence for every stream, every two splittings, every configuration and every reachable reader state the "
          "same frames (all fields) come out and the reader ends in the same state. Correspondence: real reader vs model (frames and "
          "internal buffer/raw/frame sizes after every call) on generated families x 3 chunkings x 4 cfgs and exhaustively on all "
-         "streams up to a small length over {7E,7D,A0,07,01} x every cut set; outputs of the real reader are compared across chunkings.",
+         "streams up to a small length over {7E,7D,A0,07,01} x every cut set; over-long runs (> 2047 octets without a flag, then a flag and good frames) in one chunk / cut after octet 2048 / cut before / fixed blocks; outputs of the real reader are compared across chunkings.",
     note=NOTE_COMMON + "Buffer content before the read position is represented by its length only.",
     technique="Lean 4 proof (refinement: buffered loop = per-octet fold, by functional induction) + differential correspondence",
     design="5/C06")
@@ -80,7 +80,7 @@ CHECKS["C20"] = dict(
          "eq_string_parses_first, cde_exact, roundtrip and roundtrip_str (format then parse gives the same groups when optional groups are "
          "absent or non-zero). The matcher is the deterministic equivalent of re.match with the combined pattern; pattern texts are pinned "
          "against the regenerated source strings. Correspondence: real to_obis_tupple / Obis methods vs model on both syntaxes, presence "
-         "patterns x boundary values, a mutation grammar of malformed strings, formatting, equality and hashing.",
+         "patterns x boundary values, a mutation grammar of malformed strings, formatting, equality and hashing, incl. neighbouring codes (one group or two adjacent groups changed by absent <-> 0, +-1) compared as objects in both orders and through the string path.",
     note=NOTE_COMMON + "Modelled: the regular-expression engine on ASCII input (deterministic equivalent, tied by the correspondence), int(), f-strings of ints.",
     technique="Lean 4 proof (matcher lemmas + inversion) + pinned pattern text + differential correspondence",
     design="5/C20")
@@ -182,7 +182,7 @@ CHECKS["C18"] = dict(
          "losses within the threshold make the next attempt wait at least the configured sleep, losses further apart add nothing. "
          "Correspondence: real ExponentialBackOff on all sequences up to length 10 (14 thorough) x 5 max_delay values and random ones up to "
          "200; real ConnectionManager breaker/_get_back_off_time with a patched clock. The placement of these sleeps on the event loop "
-         "(attempt starts no sooner than failure + delay) is exercised by the C17 virtual-time harness.",
+         "(attempt starts no sooner than failure + delay, no later than max(delay, breaker sleep)) is judged on the running manager on the C17 virtual-time loop: runs of failed attempts whose factory raises a different exception class per attempt (OSError family and not), interleaved with successes and losses.",
     note=NOTE_COMMON + "Partial: real wall-clock scheduling slack is outside the model; times are integer microseconds.",
     technique="Lean 4 proof (induction over call sequences) + exhaustive small-domain correspondence",
     design="5/C18")
